@@ -49,7 +49,7 @@ func (s *gsim) byzantine() {
 		s.byzCommit()
 		return
 	}
-	if len(s.advKeys()) > 0 && k.Bool(1, 3, "byz-split") {
+	if len(s.advKeys()) > 0 && (k.Bool(1, 3, "byz-split") || (s.targeted && k.Bool(2, 3, "byz-split-targeted"))) {
 		s.byzSplit()
 		return
 	}
@@ -65,6 +65,11 @@ func (s *gsim) byzSplit() {
 	a := adv[k.Choose(len(adv), "byz-key")]
 	stage := []gp.Subround{gp.VerifPrevote, gp.VerifPrecommit}[k.Choose(2, "byz-stage")]
 	x, y := s.anyBlock("byz-split-x"), s.anyBlock("byz-split-y")
+	if s.targeted {
+		lv := s.ref.Leaves()
+		x = s.ref.Blocks[lv[k.Choose(len(lv), "byz-split-leaf-x")]]
+		y = s.ref.Blocks[lv[k.Choose(len(lv), "byz-split-leaf-y")]]
+	}
 	ref := s.pickHonest("byz-round-of")
 	round, setID := ref.svc.VerifRound(), ref.svc.VerifSetID()
 	mk := func(b *cu.RefBlock) []byte {
